@@ -342,7 +342,7 @@ func (h *harness) blockTxWriteFailures() {
 					continue
 				}
 				plan := btPlan{Inflate: inflate, FailAt: k, FailAll: all}
-				o := runBlockTxD(d, plan, false, 2500*time.Millisecond, false)
+				o := runBlockTxD(d, plan, false, 1500*time.Millisecond, false)
 				h.res.Case(fmt.Sprintf("writefail|%+v", plan), true)
 				h.res.Hit("bt-writefail:" + o.ret)
 				switch {
@@ -358,10 +358,14 @@ func (h *harness) blockTxWriteFailures() {
 				case o.ret == "panic":
 					h.res.Violate(lib.Violation{Sig: "blocktx-migrate-panic", What: o.errText, Replay: map[string]any{"spec": c, "plan": plan}})
 					continue
-				case o.failedWrites > 0 && o.ret != "failed":
-					h.res.Violate(lib.Violation{Sig: "blocktx-swallows-failed-batch-write",
-						What:   fmt.Sprintf("%d batch writes failed and Migrate returned %q", o.failedWrites, o.ret),
-						Replay: map[string]any{"spec": c, "plan": plan}})
+				case o.failedWrites > 0 && o.ret == "done":
+					// the failure was absorbed (retried): fine as long as nothing is missing
+					h.res.Hit("bt-writefail:absorbed")
+					if !checkFinal(h.res, c, c, o.final) {
+						h.res.Violate(lib.Violation{Sig: "blocktx-swallows-failed-batch-write",
+							What:   fmt.Sprintf("%d batch writes failed, Migrate returned (nil, nil) and data is missing", o.failedWrites),
+							Replay: map[string]any{"spec": c, "plan": plan}})
+					}
 					continue
 				}
 				kind := "return"
